@@ -347,6 +347,9 @@ func c25(r *Run) {
 	}
 	if f := r.fn(w, "C25.R2", IH+"Pop"); f != nil {
 		tr := findEffects(f, "store p0.items = p0.items[0:(builtin.len(p0.items) - 1)]")
+		if len(tr) == 0 {
+			tr = findEffects(f, "store p0.items = p0.items[:(builtin.len(p0.items) - 1)]") // the same slice with the zero bound left out
+		}
 		dl := findEffects(f, "call builtin.delete(p0.lookup, p0.items[(builtin.len(p0.items) - 1)].ID)")
 		r.check(len(tr) == 1 && len(dl) == 1 && sameConds(tr[0], dl[0]), "C25.R2", "innerHeap.Pop:truncate<->delete-lookup", w.rel(f.Pos()), "", "innerHeap.Pop does not truncate items and delete the lookup entry together")
 	}
